@@ -239,13 +239,10 @@ def examine(case):
     # the model's replace_table (Lean `replaceT`, policy Pol.code) applied to the described ORIGINAL object must render
     # what the real replace_table result renders
     import re
-    # the model's table references are (name, schema chain, alias): a field bound to a temporal VERSION of the table is not
-    # told apart from one bound to the table itself, so the model's replaceT is not asked about those statements (the
-    # comparison with the rebuilt statement above is what decides them)
-    versions = re.search(r"\b[SP]\b", case["src"]) is not None
-    if versions:
+    # (the model's table references carry the temporal version — `TRef.ver` — so its replaceT is asked about these too)
+    if re.search(r"\b[SP]\b", case["src"]) is not None:
         res.tags.append("temporal-version")
-    if rep is not None and not got.startswith("raises") and not versions:
+    if rep is not None and not got.startswith("raises"):
         try:
             if isinstance(objA, ns.queries.QueryBuilder):
                 kw0 = {"dialect": objA.dialect}
